@@ -227,12 +227,15 @@ func main() {
 		signers := c09lib.SignersOf(t)
 		obs := fmt.Sprintf("(mkObs %d %s %s %s %s [])", class, c09lib.DeltasCoq(deltas), e.AcctsCoq(ctx, signers), e.ExecsCoq(ctx),
 			c09lib.StrListCoq(e.MarksPresent(ctx, t.Msgs)))
+		rel := c09lib.NewRel()
+		rel.AddTx(t)
+		rel.AddDeltas(deltas)
 		if len(myProps) > 0 {
-			lines = append(lines, fmt.Sprintf("C14Gov %s %s %s %s %s %s %s %s", e.CfgCoq(c), hx.List(propCoq), accts, c09lib.BalsCoq(before), c09lib.StrListCoq(watch),
-				c09lib.StrListCoq(c09lib.Denoms), t.Coq(), obs))
+			lines = append(lines, fmt.Sprintf("C14Gov %s %s %s %s %s %s %s %s", e.CfgCoq(c), hx.List(propCoq), accts, c09lib.BalsCoqFor(before, rel), c09lib.StrListCoq(watch),
+				c09lib.StrListCoq(rel.List()), t.Coq(), obs))
 		} else {
-			lines = append(lines, fmt.Sprintf("C14Tx %s %s %s %s %s %s %s", e.CfgCoq(c), accts, c09lib.BalsCoq(before), c09lib.StrListCoq(watch),
-				c09lib.StrListCoq(c09lib.Denoms), t.Coq(), obs))
+			lines = append(lines, fmt.Sprintf("C14Tx %s %s %s %s %s %s %s", e.CfgCoq(c), accts, c09lib.BalsCoqFor(before, rel), c09lib.StrListCoq(watch),
+				c09lib.StrListCoq(rel.List()), t.Coq(), obs))
 		}
 		var types []string
 		for _, m := range t.Msgs {
@@ -382,7 +385,9 @@ func main() {
 		tok := sdk.NewCoins(sdk.NewInt64Coin(fc.Token, 5))
 		nat := sdk.NewCoins(sdk.NewInt64Coin("ukex", 3))
 		run(fc.Cfg, c09lib.TxSpec{Fee: fee(170), Msgs: []c09lib.M{{Kind: "send", From: "a2", To: "a3", Amt: tok}}, Seqs: []uint64{0}, SigOK: true}, fc.Tag+":send")
-		if fc.Token == c09lib.IbcDenom || fc.Token == c09lib.MixDenom {
+		if fc.Token == "UBTC" || fc.Token == "UKEX" || fc.Token == "FROZEN" {
+			// unregistered case look-alikes: the send and fee paths above are enough
+		} else if fc.Token == c09lib.IbcDenom || fc.Token == c09lib.MixDenom {
 			// case-sensitive denominations: also as the second message of a transaction
 			run(fc.Cfg, c09lib.TxSpec{Fee: fee(170), Msgs: []c09lib.M{g.msg(fc.Cfg, "register_identity_records", "a2", ""), {Kind: "send", From: "a2", To: "a3", Amt: tok}}, Seqs: []uint64{0}, SigOK: true}, fc.Tag+":send-second")
 		} else if !quick || fi%3 == 0 { // the two unfiltered paths: every third corner in the quick tier, all in the thorough tier
